@@ -225,7 +225,20 @@ class Gen:
                 args.append(rng.choice(fit) if fit and rng.random() < 0.9 else self.pick(lambda d: d[0] in ("scalar", "array")))
             if rng.random() < 0.07:
                 args = args[:-1] if rng.random() < 0.5 else args + args[:1]
-            return self.do({"op": "call", "f": f, "args": args}) if None not in args else None
+            if None in args:
+                return None
+            cmd = {"op": "call", "f": f, "args": args}
+            if params and len(args) == len(params) and rng.random() < 0.3:
+                # some of the trailing arguments by keyword, written in any order (sometimes an unknown / repeated parameter)
+                npos = rng.randint(0, len(args) - 1)
+                kw = [[params[i][0], args[i]] for i in range(npos, len(args))]
+                rng.shuffle(kw)
+                if rng.random() < 0.1:
+                    kw.append([rng.choice(["nosuch", params[0][0]]), args[0]])
+                    if len({n for n, _ in kw}) != len(kw):
+                        kw.pop()
+                cmd = {"op": "call", "f": f, "args": args[:npos], "kw": kw}
+            return self.do(cmd)
         a = rng.choice(arrays)
         elem = describe(self.m.regs[a])[2]
         if kind < 0.7:
@@ -253,13 +266,13 @@ class Gen:
             init = self.new_input(want if want in PUBSEC else None)
         return self.do({"op": "reduce", "a": a, "f": f, "init": init})
 
-    def define_fn(self, anns=None, ret=None, plan=None):
+    def define_fn(self, anns=None, ret=None, plan=None, plain=None, name=None):
         rng = self.rng
         if len(self.cur) > self.max_depth:
             return None
         self.nfn += 1
         # function names are not unique in general (lambdas, same-named helpers in different scopes)
-        name = f"fn{self.nfn}" if rng.random() > 0.12 else rng.choice(["helper", "_lambda_"])
+        name = name or (f"fn{self.nfn}" if rng.random() > 0.12 else rng.choice(["helper", "_lambda_"]))
         if anns is None:
             anns = []
             for _ in range(rng.choice([1, 1, 2, 2, 3])):
@@ -314,7 +327,7 @@ class Gen:
             self.cur.pop()
             return ret_reg
 
-        err = self.m.run_fn(name, params, ret_ann, body)
+        err = self.m.run_fn(name, params, ret_ann, body, plain=plain)
         self._sync()
         if err is None:
             self.fninfo[len(self.m.regs) - 1] = (params, ret_ann)
@@ -324,7 +337,8 @@ class Gen:
     def last(self):
         return len(self.m.regs) - 1
 
-    SCENARIOS = ["diamond", "captured", "chain", "sites", "zipmap", "nestedzip", "sharedlit", "matrix"]
+    SCENARIOS = ["diamond", "captured", "chain", "sites", "zipmap", "nestedzip", "sharedlit", "matrix",
+                 "ntupleidx", "objkeys", "zipsizes", "arraynewmix", "samelit", "failedcompile", "triangle", "kwcall", "closureloop", "litfold"]
 
     def scenario(self, k=None):
         rng = self.rng
@@ -434,6 +448,268 @@ class Gen:
             m2 = self.last()
             self.do({"op": "zip", "a": m1, "b": m2})
             self.do({"op": "unzip", "a": self.last()})
+            return None
+        if k == "ntupleidx":
+            # every index from -n-3 to n+3 on an n-tuple of mixed members (literal, public, secret, array, n-tuple)
+            n = rng.choice([1, 2, 3, 4])
+            members = []
+            for _ in range(n):
+                kind = rng.random()
+                if kind < 0.2:
+                    self.do({"op": "lit", "base": rng.choice(["int", "uint"]), "v": str(rng.randint(0, 9))})
+                    members.append(self.last())
+                elif kind < 0.75:
+                    members.append(self.new_input())
+                elif kind < 0.9:
+                    a = self.new_input()
+                    self.do({"op": "arrayOf", "r": a, "size": rng.choice([1, 2, 3])})
+                    members.append(self.last())
+                else:
+                    a, b = self.new_input(), self.new_input()
+                    self.do({"op": "ntupleNew", "xs": [a, b]})
+                    members.append(self.last())
+            self.do({"op": "ntupleNew", "xs": members})
+            t = self.last()
+            idx = list(range(-n - 3, n + 4))
+            rng.shuffle(idx)
+            for i in idx:
+                self.do({"op": "ntupleGet", "t": t, "i": str(i)})
+            return None
+        if k == "objkeys":
+            keys = rng.sample(KEYS, rng.choice([1, 2, 3]))
+            fs = []
+            for kk in keys:
+                if rng.random() < 0.2:
+                    self.do({"op": "lit", "base": "int", "v": str(rng.randint(0, 9))})
+                    fs.append([kk, self.last()])
+                elif rng.random() < 0.8:
+                    fs.append([kk, self.new_input()])
+                else:
+                    a = self.new_input()
+                    self.do({"op": "arrayOf", "r": a, "size": 2})
+                    fs.append([kk, self.last()])
+            self.do({"op": "objectNew", "fs": fs})
+            o = self.last()
+            for kk in keys + ["missing", "undeclared", rng.choice(KEYS)]:
+                self.do({"op": "objectGet", "o": o, "key": kk})
+            return None
+        if k == "zipsizes":
+            # zip / inner_product over all pairs of a few arrays of different sizes and element types
+            arrs = []
+            for sz in rng.sample([1, 2, 3, 4], 3):
+                a = self.new_input(rng.choice(["SecretInteger", "PublicInteger", "SecretUnsignedInteger", "SecretBoolean", "PublicBoolean"]))
+                self.do({"op": "arrayOf", "r": a, "size": sz})
+                arrs.append(self.last())
+            a = self.new_input(rng.choice(PUBSEC))
+            self.do({"op": "arrayOf", "r": a, "size": describe(self.m.regs[arrs[0]])[1]})
+            arrs.append(self.last())
+            for x in arrs:
+                for y in arrs:
+                    if rng.random() < 0.6:
+                        self.do({"op": rng.choice(["zip", "innerProduct"]), "a": x, "b": y})
+                        if describe(self.m.regs[self.last()])[0] == "array" and rng.random() < 0.5:
+                            self.do({"op": "unzip", "a": self.last()})
+            return None
+        if k == "arraynewmix":
+            xs = [self.new_input(T) for _ in range(rng.choice([1, 2, 3]))]
+            self.do({"op": "arrayNew", "xs": xs})
+            self.do({"op": "arrayNew", "xs": []})
+            odd = self.new_input(rng.choice([t for t in PUBSEC if t != T]))
+            self.do({"op": "arrayNew", "xs": xs + [odd]})
+            a = self.new_input(T)
+            self.do({"op": "arrayOf", "r": a, "size": 2})
+            a2 = self.last()
+            b = self.new_input(T)
+            self.do({"op": "arrayOf", "r": b, "size": rng.choice([2, 3])})
+            self.do({"op": "arrayNew", "xs": [a2, self.last()]})
+            self.do({"op": "arrayNew", "xs": [a2, a2, a2]})
+            return None
+        if k == "samelit":
+            # one value written at several literal types (and twice at one type), each kept from folding by a
+            # non-literal operand; values that collide under Python's hash() / differ only in type
+            v = rng.choice([1, 0, 7, 2**61, 2**61 - 1, 2**64])
+            xi, xu = self.new_input("SecretInteger"), self.new_input("SecretUnsignedInteger")
+            outs = []
+            for base, x in (("int", xi), ("uint", xu), ("int", xi)):
+                self.do({"op": "lit", "base": base, "v": str(v)})
+                self.do({"op": "bin", "bop": op(), "a": x, "b": self.last()})
+                outs.append(self.last())
+            for w in (v + 2**61 - 1, -1, -2):
+                self.do({"op": "lit", "base": "int", "v": str(w)})
+                self.do({"op": "bin", "bop": "add", "a": xi, "b": self.last()})
+                outs.append(self.last())
+            self.do({"op": "lit", "base": "bool", "v": bool(v % 2)})
+            xb = self.new_input("SecretBoolean")
+            self.do({"op": "bin", "bop": "xor", "a": xb, "b": self.last()})
+            outs.append(self.last())
+            rng.shuffle(outs)
+            self.compile_now(prefer=outs[:4])
+            return None
+        if k == "failedcompile":
+            # a compilation that fails part-way (two different inputs under one name), followed by further compilations
+            x = self.new_input("SecretInteger")
+            self.do({"op": "lit", "base": "int", "v": "77"})
+            self.do({"op": "bin", "bop": "add", "a": x, "b": self.last()})
+            first = self.last()
+            self.do({"op": "party", "name": "Mallory"})
+            pm = self.last()
+            self.do({"op": "inputObj", "name": "dupname", "doc": "", "party": pm})
+            self.do({"op": "wrap", "t": "SecretInteger", "r": self.last()})
+            a = self.last()
+            self.do({"op": "inputObj", "name": "dupname", "doc": "", "party": pm})
+            self.do({"op": "wrap", "t": "SecretInteger", "r": self.last()})
+            self.do({"op": "bin", "bop": "add", "a": a, "b": self.last()})
+            bad = self.last()
+            self.m.compile([[first, "first", self.parties[0]], [bad, "second", pm]])
+            y = self.new_input(T)
+            self.do({"op": "bin", "bop": "eq", "a": y, "b": y})
+            self.compile_now(prefer=[self.last()])
+            self.compile_now(prefer=[y])
+            return None
+        if k == "triangle":
+            # a helper reachable only through other function bodies, discovered twice while still pending:
+            # top -> mid, top -> h, mid -> h, with either operand order inside top, through calls or map sites;
+            # each triangle is compiled on its own before anything else can use its functions
+            for order in (True, False):
+                def helper_body(ps):
+                    self.do({"op": "bin", "bop": "mul", "a": ps[0], "b": ps[0]})
+                    return self.last()
+                h = fn1(helper_body)
+                if h is None:
+                    return None
+
+                def mid_body(ps, h=h):
+                    self.do({"op": "call", "f": h, "args": [ps[0]]})
+                    c = self.last()
+                    self.do({"op": "bin", "bop": "add", "a": c, "b": ps[0]})
+                    return self.last()
+                mid = fn1(mid_body)
+                if mid is None:
+                    return None
+
+                def top_body(ps, h=h, mid=mid, order=order):
+                    first, second = (mid, h) if order else (h, mid)
+                    self.do({"op": "call", "f": first, "args": [ps[0]]})
+                    a = self.last()
+                    self.do({"op": "call", "f": second, "args": [ps[0]]})
+                    self.do({"op": "bin", "bop": op(), "a": a, "b": self.last()})
+                    return self.last()
+                top = fn1(top_body)
+                if top is None:
+                    return None
+                x = self.new_input(T)
+                if rng.random() < 0.5:
+                    self.do({"op": "call", "f": top, "args": [x]})
+                else:
+                    self.do({"op": "arrayOf", "r": x, "size": 3})
+                    self.do({"op": "map", "a": self.last(), "f": top})
+                self.compile_now(prefer=[self.last()])
+            return None
+        if k == "litfold":
+            # literal-only sub-expressions (every foldable operator; mixed signs, magnitudes beyond 2**53 / 2**64 / the
+            # float range; nested), each combined with a non-literal operand and sent to an output
+            xi = self.new_input("SecretInteger")
+            xu = self.new_input("SecretUnsignedInteger")
+            pairs = [(-7, 2), (7, -2), (-7, -2), (2**60 + 1, 1), (10**30 + 1, 7), (10**400, 3), (2**64 - 1, 5), (-(2**70) - 1, 3),
+                     (9007199254740993, 1), (R.big_int(rng), R.big_int(rng) or 1), (R.big_int(rng), rng.choice([2, 3, 10, -3]))]
+            outs = []
+            for a, b in rng.sample(pairs, 5):
+                bop = rng.choice(["div", "div", "mod", "add", "sub", "mul"])
+                unsigned = a >= 0 and b > 0 and bop != "sub" and rng.random() < 0.4
+                base = "uint" if unsigned else "int"
+                self.do({"op": "lit", "base": base, "v": str(a)})
+                la = self.last()
+                self.do({"op": "lit", "base": base, "v": str(b)})
+                self.do({"op": "bin", "bop": bop, "a": la, "b": self.last()})
+                f1 = self.last()
+                if self.m.regs[f1] is DEAD:
+                    continue
+                if rng.random() < 0.4:
+                    self.do({"op": "lit", "base": base, "v": str(rng.choice([1, 2, 3]))})
+                    self.do({"op": "bin", "bop": rng.choice(["add", "mul", "div"]), "a": f1, "b": self.last()})
+                    if self.m.regs[self.last()] is not DEAD:
+                        f1 = self.last()
+                self.do({"op": "bin", "bop": rng.choice(["add", "mul", "sub"]), "a": xu if unsigned else xi, "b": f1})
+                outs.append(self.last())
+            self.do({"op": "lit", "base": "uint", "v": str(rng.choice([1, 3, 70]))})
+            sh = self.last()
+            self.do({"op": "lit", "base": "int", "v": str(R.big_int(rng))})
+            self.do({"op": "bin", "bop": rng.choice(["shl", "shr"]), "a": self.last(), "b": sh})
+            self.do({"op": "bin", "bop": "add", "a": xi, "b": self.last()})
+            outs.append(self.last())
+            rng.shuffle(outs)
+            self.compile_now(prefer=outs[:4])
+            return None
+        if k == "closureloop":
+            # one plain Python function (not decorated) passed to several map / reduce operations while the outer
+            # variable it reads is rebound in between — written here as one function definition per use, each
+            # immediately followed by its use (the entry-point run renders the group as a single Python function)
+            g = f"g{rng.randint(0, 99)}"
+            T = rng.choice(["SecretInteger", "PublicInteger", "SecretUnsignedInteger"])
+            caps = [self.new_input(T) for _ in range(rng.choice([2, 3]))]
+            a = self.new_input(T)
+            self.do({"op": "arrayOf", "r": a, "size": rng.choice([2, 3])})
+            arr = self.last()
+            bop = op()
+            red = rng.random() < 0.4
+            init = self.new_input(T) if red else None
+            res = []
+            for cap in caps:
+                def body(ps, cap=cap):
+                    self.do({"op": "bin", "bop": bop, "a": ps[-1], "b": cap})
+                    x = self.last()
+                    if red:
+                        self.do({"op": "bin", "bop": "add", "a": ps[0], "b": x})
+                    return self.last()
+                self.define_fn(anns=[T, T] if red else [T], ret=T, plan=body, plain={"group": g, "cap": cap}, name=f"plain_{g}")
+                f = self.last()
+                if describe(self.m.regs[f])[0] != "fn":
+                    return None
+                self.do({"op": "reduce", "a": arr, "f": f, "init": init} if red else {"op": "map", "a": arr, "f": f})
+                res.append(self.last())
+            self.compile_now(prefer=res)
+            return None
+        if k == "kwcall":
+            # functions with parameters of pairwise different types and a non-commutative body, called with keyword
+            # arguments in every order (and inside another function's body)
+            kinds = rng.sample(["SecretInteger", "PublicInteger", "Integer"], rng.choice([2, 3]))
+            if all(x == "Integer" for x in kinds):
+                kinds[0] = "SecretInteger"
+
+            def body(ps):
+                acc = ps[0]
+                for q in ps[1:]:
+                    self.do({"op": "bin", "bop": "sub", "a": acc, "b": q})
+                    acc = self.last()
+                return acc
+            ret = "SecretInteger" if "SecretInteger" in kinds else "PublicInteger"
+            self.define_fn(anns=kinds, ret=ret, plan=body)
+            f = self.last()
+            if describe(self.m.regs[f])[0] != "fn":
+                return None
+            names = [f"p{i}" for i in range(len(kinds))]
+            vals = []
+            for t in kinds:
+                if t == "Integer":
+                    self.do({"op": "lit", "base": "int", "v": str(rng.randint(2, 9))})
+                    vals.append(self.last())
+                else:
+                    vals.append(self.new_input(t))
+            import itertools
+            for perm in itertools.permutations(range(len(kinds))):
+                for npos in range(len(kinds)):
+                    if rng.random() < 0.6:
+                        kw = [[names[i], vals[i]] for i in perm if i >= npos]
+                        self.do({"op": "call", "f": f, "args": vals[:npos], "kw": kw})
+            self.do({"op": "call", "f": f, "args": vals[:1], "kw": [[names[0], vals[0]]] + [[names[i], vals[i]] for i in range(1, len(kinds))]})
+
+            def outer(ps, f=f, names=names, vals=vals):
+                self.do({"op": "call", "f": f, "args": [], "kw": [[names[i], ps[0] if i == 0 else vals[i]] for i in reversed(range(len(names)))]})
+                return self.last()
+            self.define_fn(anns=[kinds[0]], ret=ret, plan=outer)
+            g2 = self.last()
+            if describe(self.m.regs[g2])[0] == "fn":
+                self.do({"op": "call", "f": g2, "args": [vals[0]]})
             return None
         if k == "sharedlit":
             # a literal traced before a compilation and reused after it next to a new literal
